@@ -512,11 +512,28 @@ func c07Run(sc *core.Scenario, keepLog bool, p *c07Pass) *core.Result {
 				tearFile(img.Data, tornID, opAct.Arg(5))
 				e.St.Faults["store_torn"]++
 			}
+			// in some runs the image also loses one cache file of a message that was stored
+			// long ago (the cache is a cache: the remote still has the literal); the message
+			// must be served with its exact bytes all the same, at the first and at every
+			// later read
+			// (not next to a MessageUpdated: there the remote's literal is already the new one,
+			// and a re-download under the old entry is neither "before" nor "after" by construction)
+			if sc.C("nolit") != 1 && abs(opAct.Arg(4))%4 == 0 && opAct.K != "op.conn-updated" {
+				if c07LoseOneFile(img.Data, abs(opAct.Arg(3))) {
+					e.St.Faults["cache_file_lost"]++
+				}
+			}
 			if err := e.W.RestartOn(img); err != nil {
 				e.Fail("crash-restart", "server does not start on the crash image: %v", err)
 				return
 			}
 			verify("after-crash", before, after)
+			if e.Failed() {
+				return
+			}
+			// a literal whose cache file was lost is downloaded again and written back by the
+			// first read: what the second read finds must be the same bytes
+			verify("after-crash-second-read", before, after)
 			if e.Failed() {
 				return
 			}
@@ -551,6 +568,10 @@ func c07Run(sc *core.Scenario, keepLog bool, p *c07Pass) *core.Result {
 				return
 			}
 			verify("after-step-error-restart", allowed...)
+			if e.Failed() {
+				return
+			}
+			verify("after-step-error-restart-second-read", allowed...)
 			if e.Failed() {
 				return
 			}
@@ -623,6 +644,22 @@ func sameNames(a, b []string) bool {
 }
 
 // tearFile truncates the cache file of the given internal ID inside an image.
+// c07LoseOneFile removes the k-th (mod n) regular file below dataDir.
+func c07LoseOneFile(dataDir string, k int) bool {
+	var files []string
+	filepath.Walk(dataDir, func(p string, info os.FileInfo, err error) error {
+		if err == nil && !info.IsDir() {
+			files = append(files, p)
+		}
+		return nil
+	})
+	if len(files) == 0 {
+		return false
+	}
+	sort.Strings(files)
+	return os.Remove(files[k%len(files)]) == nil
+}
+
 func tearFile(dataDir, id string, frac int) {
 	filepath.Walk(dataDir, func(p string, info os.FileInfo, err error) error {
 		if err != nil || info.IsDir() {
